@@ -7,12 +7,6 @@ set_option linter.unusedVariables false
 
 namespace C13
 
-/-- demand 4-tuple of a delivery customer with file demand `q` -/
-def static4 (q : Int) : Demand4 := ⟨0, 0, q, 0⟩
-
-/-- demand 4-tuple of a Li&Lim task with signed file demand `q` -/
-def dynamic4 (q : Int) : Demand4 := if q > 0 then ⟨0, q, 0, 0⟩ else ⟨0, 0, 0, -q⟩
-
 theorem loadsFrom_static_le (qs : List Int) (hq : ∀ q ∈ qs, 0 ≤ q) (cur : Int) :
     ∀ l ∈ loadsFrom cur (qs.map static4), l ≤ cur := by
   induction qs generalizing cur with
